@@ -961,7 +961,11 @@ def endBlock (s : State) (updates : List (Nat × Int)) : Option State :=
       | some p =>
         let (g, failed, sealed) := g.sealRound p s.height force
         let valIDs := g.vals.map (·.1)
-        let st := sealed.foldl (fun st fid => st.removeNonces fid valIDs) s.store
+        -- F-13a repair: RemoveNonceWithValidator for every update with power 0 (a validator that leaves
+        -- the set loses all its nonce entries; the clean-up below only covers the new set)
+        let st0 : Store := updates.foldl (fun st kv =>
+          if kv.2 = 0 then { st with nonces := st.nonces.filter (fun e => !(e.1.1 = kv.1)) } else st) s.store
+        let st := sealed.foldl (fun st fid => st.removeNonces fid valIDs) st0
         let st := failed.foldl (fun st tok => st.setToken tok ((st.token tok).grow p.maxSizePrices)) st
         -- CommitCache
         let st := if c.msgs.length > 0 then commitMsgs st p.maxNonce s.height c.msgs else st
